@@ -49,7 +49,7 @@ fn c04_bigbed_section_span() {
 // @mem 16
 // @functions bigbedwrite::process_val (acceptance checks and the accepted path up to section hand-off)
 // @bounds one call from the empty per-chromosome state; all coordinates and the chromosome length full u32 width; items_per_slot = 2
-// @stubs tokio Handle::spawn -> run now; mpsc Sender::poll_ready/start_send -> always ready FIFO log; alloc::fmt::format -> empty string; index_list::IndexList -> 6-slot sequence model (support.rs ilist) by one source substitution of the `use` line
+// @stubs tokio Handle::spawn -> run now; mpsc Sender::poll_ready/start_send -> always ready FIFO log; alloc::fmt::format -> empty string; index_list::IndexList -> 4-slot sequence model (support.rs ilist) by one source substitution of the `use` line
 // @sub src/bbi/bigbedwrite.rs ::: use index_list::IndexList; ::: use crate::verif_support::ilist::IndexList;
 // @cut refusal as seen through write()/JoinHandles; unknown chromosome / chromosome order (closures inside write_vals)
 // @witness cover: accepted and each refusal class reachable
@@ -169,7 +169,7 @@ fn c02_bigbed_section_layout() {
 // @mem 24
 // @functions bigbedwrite::process_val (coverage-depth sweep `add_interval_to_summary`), two consecutive calls from the empty per-chromosome state
 // @bounds 2 entries (the second is the last of the chromosome), coordinates in 0..=12, start-sorted, any overlap relation (disjoint, touching, partially overlapping, nested, identical, zero-length); items_per_slot 4
-// @stubs tokio Handle::spawn -> counted/discarded; mpsc Sender -> always-ready log; alloc::fmt::format -> empty; index_list::IndexList -> 6-slot sequence model (support.rs ilist) by one source substitution of the `use` line
+// @stubs tokio Handle::spawn -> counted/discarded; mpsc Sender -> always-ready log; alloc::fmt::format -> empty; index_list::IndexList -> 4-slot sequence model (support.rs ilist) by one source substitution of the `use` line
 // @sub src/bbi/bigbedwrite.rs ::: use index_list::IndexList; ::: use crate::verif_support::ilist::IndexList;
 // @cut cross-chromosome accumulation; more than 2 entries; coordinates > 12 (the sweep compares and subtracts coordinates only)
 // @witness cover: partially overlapping entries; nested entries; disjoint entries
@@ -246,6 +246,26 @@ fn depth_at(x: u32, s0: u32, e0: u32, s1: u32, e1: u32) -> u64 {
     ((s0 <= x && x < e0) as u64) + ((s1 <= x && x < e1) as u64)
 }
 
+/// statistics (covered bases, sum, sum of squares, min, max) of the depth function over [lo,hi) within
+/// 0..10 - unrolled by hand so that the harness needs no long loop (the unwinding bound is global)
+fn depth_stats(lo: u32, hi: u32, s0: u32, e0: u32, s1: u32, e1: u32) -> (u64, u64, u64, u64, u64) {
+    let (mut b, mut sm, mut sq, mut mn, mut mx): (u64, u64, u64, u64, u64) = (0, 0, 0, 99, 0);
+    macro_rules! at {
+        ($x:expr) => {
+            if lo <= $x && $x < hi {
+                let d = depth_at($x, s0, e0, s1, e1);
+                if d > 0 {
+                    b += 1; sm += d; sq += d * d;
+                    if d < mn { mn = d; }
+                    if d > mx { mx = d; }
+                }
+            }
+        };
+    }
+    at!(0); at!(1); at!(2); at!(3); at!(4); at!(5); at!(6); at!(7); at!(8); at!(9);
+    (b, sm, sq, mn, mx)
+}
+
 // @harness c08_bigbed_zoom_two_entries
 // @props C08
 // @tier quick
@@ -253,21 +273,19 @@ fn depth_at(x: u32, s0: u32, e0: u32, s1: u32, e1: u32) -> u64 {
 // @timeout 2400
 // @mem 32
 // @functions bigbedwrite::process_val_zoom (coverage sweep + tiling into zoom records), two consecutive calls from the empty per-chromosome state, one zoom level
-// @bounds 2 entries with coordinates in 0..=9, start-sorted, any overlap relation; a third entry far to the right (start 12) keeps the chromosome open; resolution 3; items_per_slot 8 (no mid-way flush)
-// @stubs tokio Handle::spawn -> counted/discarded; mpsc Sender -> always-ready log; Vec::push -> push within capacity (asserted); index_list::IndexList -> 6-slot sequence model by one source substitution of the `use` line
-// @sub src/bbi/bigbedwrite.rs ::: use index_list::IndexList; ::: use crate::verif_support::ilist::IndexList;
+// @bounds 2 entries with coordinates in 0..=7, start-sorted, any overlap relation; a third entry to the right (start 9) keeps the chromosome open; resolution 3; items_per_slot 8 (no mid-way flush)
+// @stubs tokio Handle::spawn -> counted/discarded; mpsc Sender -> always-ready log; Vec::push -> push within capacity (asserted); index_list::IndexList -> 4-slot sequence model by one source substitution of the `use` line; the two channel hand-offs `zoom_item.channel.send(handle).await.expect(..)` -> `direct_send(..)` (removes the await points inside the sweep loops, whose coroutine lowering merges inner and outer loop heads)
+// @sub src/bbi/bigbedwrite.rs ::: use index_list::IndexList; ::: use crate::verif_support::ilist::IndexList; ||| src/bbi/bigbedwrite.rs ::: zoom_item.channel.send(handle).await.expect("Couln't send"); ::: crate::verif_support::env::direct_send(&mut zoom_item.channel, handle); ::: 2
 // @cut end-of-chromosome flush (see c08_bigbed_zoom_last); more than 2 entries; other resolutions; f32 narrowing (c09_zoom_section_layout)
 // @witness cover: partially overlapping entries; a gap longer than the resolution; nested entries
 #[kani::proof]
-#[kani::unwind(12)]
+#[kani::unwind(5)]
 #[kani::stub(tokio::runtime::Handle::spawn, fake_spawn_skip)]
-#[kani::stub(futures::channel::mpsc::Sender::poll_ready, fake_poll_ready)]
-#[kani::stub(futures::channel::mpsc::Sender::start_send, fake_start_send)]
 #[kani::stub(alloc::vec::Vec::push, push_within_capacity)]
 fn c08_bigbed_zoom_two_entries() {
     let size: u32 = 3;
     let (s0, e0, s1, e1): (u32, u32, u32, u32) = (kani::any(), kani::any(), kani::any(), kani::any());
-    kani::assume(s0 <= e0 && s1 <= e1 && s0 <= s1 && e0 <= 9 && e1 <= 9);
+    kani::assume(s0 <= e0 && s1 <= e1 && s0 <= s1 && e0 <= 7 && e1 <= 7);
     let mut env = Env::new();
     let (ztx, _zrx) = futures::channel::mpsc::channel::<Msg>(4);
     let mut zoom_items = Vec::with_capacity(1);
@@ -277,7 +295,7 @@ fn c08_bigbed_zoom_two_entries() {
     options.compress = false;
     let handle: &tokio::runtime::Handle = env.handle();
     let second = entry(s1, e1);
-    let far = entry(12, 13);
+    let far = entry(9, 10);
     let r0 = poll_once(process_val_zoom(&mut zoom_items, &options, s0, e0, Some(&second), handle, 7));
     let ok0 = match &r0 { Some(Ok(())) => true, _ => false };
     core::mem::forget(r0);
@@ -289,14 +307,9 @@ fn c08_bigbed_zoom_two_entries() {
     let zi = &zoom_items[0];
     assert!(zi.overlap.len() == 0, "[swept] coverage left of the next entry must be fully swept into records");
     let n = zi.records.len();
-    assert!(n <= 5, "[count] more records than 10 bases at resolution 3 can need");
+    assert!(n <= 4, "[count] more records than 8 bases at resolution 3 can need");
     // oracle totals
-    let mut tot_bases: u64 = 0;
-    let mut x: u32 = 0;
-    while x < 10 {
-        if depth_at(x, s0, e0, s1, e1) > 0 { tot_bases += 1; }
-        x += 1;
-    }
+    let (tot_bases, _, _, _, _) = depth_stats(0, 10, s0, e0, s1, e1);
     let mut got_bases: u64 = 0;
     let mut prev_end: u32 = 0;
     let mut first = true;
@@ -308,19 +321,7 @@ fn c08_bigbed_zoom_two_entries() {
             assert!(rec.end - rec.start <= size, "[resolution] record longer than the level's resolution");
             assert!(first || rec.start >= prev_end, "[order] records overlap or are out of order");
             // statistics of the depth function inside the record's span
-            let (mut b, mut sm, mut sq, mut mn, mut mx): (u64, u64, u64, u64, u64) = (0, 0, 0, 99, 0);
-            let mut x: u32 = 0;
-            while x < 10 {
-                if rec.start <= x && x < rec.end {
-                    let d = depth_at(x, s0, e0, s1, e1);
-                    if d > 0 {
-                        b += 1; sm += d; sq += d * d;
-                        if d < mn { mn = d; }
-                        if d > mx { mx = d; }
-                    }
-                }
-                x += 1;
-            }
+            let (b, sm, sq, mn, mx) = depth_stats(rec.start, rec.end, s0, e0, s1, e1);
             assert!(rec.summary.bases_covered == b, "[bases] a record's covered-base count differs from the covered bases in its span (uncovered bases counted, or covered ones missed)");
             assert!(b > 0, "[useless] a record without any covered base");
             assert!(rec.summary.sum == sm as f64, "[sum] a record's sum differs from the depth inside its span");
@@ -342,4 +343,55 @@ fn c08_bigbed_zoom_two_entries() {
     core::mem::forget(zoom_items);
     core::mem::forget(second);
     core::mem::forget(far);
+}
+
+// @harness c02_bigbed_item_count
+// @props C02 C06
+// @tier quick
+// @kind core
+// @timeout 1500
+// @mem 24
+// @functions BigBedFullProcess::do_process (item counter; calls process_val and process_val_zoom with no zoom levels)
+// @bounds 1 entry (followed by another one) from the empty per-chromosome state, coordinates in 0..=12, zero-length entries included; items_per_slot 4 (two consecutive calls ran out of memory during symbolic execution)
+// @stubs tokio Handle::spawn -> counted/discarded; mpsc Sender -> always-ready log; alloc::fmt::format -> empty; index_list::IndexList -> 4-slot sequence model by one source substitution of the `use` line
+// @sub src/bbi/bigbedwrite.rs ::: use index_list::IndexList; ::: use crate::verif_support::ilist::IndexList;
+// @cut BigBedNoZoomsProcess (the two-pass twin has the same counter line); destroy() (copies the counter into the summary) and write_info (c09_header_layout places it)
+// @witness cover: a zero-length entry is counted
+#[kani::proof]
+#[kani::unwind(8)]
+#[kani::stub(tokio::runtime::Handle::spawn, fake_spawn_skip)]
+#[kani::stub(futures::channel::mpsc::Sender::poll_ready, fake_poll_ready)]
+#[kani::stub(futures::channel::mpsc::Sender::start_send, fake_start_send)]
+#[kani::stub(alloc::fmt::format, fake_format)]
+fn c02_bigbed_item_count() {
+    let (s0, e0, s1, e1): (u32, u32, u32, u32) = (kani::any(), kani::any(), kani::any(), kani::any());
+    kani::assume(s0 <= e0 && s1 <= e1 && s0 <= s1 && e0 <= 12 && e1 <= 12);
+    let env = Env::new();
+    let (ftx, _frx) = futures::channel::mpsc::channel::<Msg>(4);
+    let mut options = BBIWriteOptions::default();
+    options.items_per_slot = 4;
+    options.compress = false;
+    let mut p = core::mem::ManuallyDrop::new(BigBedFullProcess {
+        summary: None,
+        state_val: EntriesSection { items: Vec::with_capacity(4), overlap: IndexList::new(), zoom_items: Vec::new() },
+        total_items: 0,
+        ftx,
+        chrom_id: 3,
+        options,
+        runtime: env.handle_owned(),
+        chrom: String::new(),
+        length: 100,
+    });
+    let second = entry(s1, e1);
+    let third = entry(20, 21);
+    let r0 = poll_once(p.do_process(entry(s0, e0), Some(&second)));
+    let ok0 = match &r0 { Some(Ok(())) => true, _ => false };
+    core::mem::forget(r0);
+    assert!(ok0, "[accepted] valid entry refused");
+    assert!(p.total_items == 1, "[item_count] the item counter must equal the number of entries processed, whatever their length");
+    assert!(p.state_val.items.len() == 1, "[buffered] the entry is buffered for its block");
+    let c1 = s0 == e0;
+    kani::cover!(c1, "zero-length entry");
+    core::mem::forget(second);
+    core::mem::forget(third);
 }
